@@ -104,9 +104,12 @@ func PointIndexOK(point string) bool { panic("ghost") }
 //@ modifies fresh, entries(map[string]*PointData)
 //@ end
 
+//@ define rootReq(req *ExecutionRequest) bool = req.QueryPlanStep.ParentType == "Query" || req.QueryPlanStep.ParentType == "Mutation" || req.QueryPlanStep.ParentType == "Subscription"
+
 //@ func (*DepthExecutor).isNeedToQuery
-//@ props C12 C09
+//@ props C12 C09 C06
 //@ requires de != nil && de.ctx != nil && req != nil
+//@ ensures[root-always-sent] rootReq(req) ==> result @props C06
 //@ modifies fresh
 //@ end
 
@@ -124,6 +127,8 @@ func PointIndexOK(point string) bool { panic("ghost") }
 //@ props C12 C06 C09
 //@ requires de != nil && req != nil && iMap != nil && wfIMap(iMap)
 //@ ensures[dedup-key] dedupable(req, variables) ==> has(iMap, dedupKey(req, variables)) && iMap[dedupKey(req, variables)].indexes[len(iMap[dedupKey(req, variables)].indexes)-1] == index && result == !old(has(iMap, dedupKey(req, variables))) @props C12
+//@ ensures[untouched] forallT(k, string, old(has(iMap, k)) && k != ite(dedupable(req, variables), dedupKey(req, variables), itoa(index)) ==> len(iMap[k].indexes) == old(len(iMap[k].indexes))) @props C06
+//@ ensures[new-key] forallT(k, string, has(iMap, k) && !old(has(iMap, k)) ==> k == ite(dedupable(req, variables), dedupKey(req, variables), itoa(index)) && len(iMap[k].indexes) == 1) @props C06
 //@ ensures[own-key] !dedupable(req, variables) ==> has(iMap, itoa(index)) && iMap[itoa(index)].indexes[len(iMap[itoa(index)].indexes)-1] == index && result == !old(has(iMap, itoa(index))) @props C12 C06
 //@ ensures[wf] wfIMap(iMap)
 //@ ensures[card] len(iMap) == old(len(iMap)) + ite(result, 1, 0)
@@ -148,11 +153,11 @@ func PointIndexOK(point string) bool { panic("ghost") }
 //@ modifies fresh, entries(map[string]interface{}), elems(interface{}), elems(map[string]interface{}), entries(map[string]*PointData), global(queryer.QueryCalls), global(queryer.LastStatus), all(queryer.MultiOpQueryer.client), all(indexMapValue.indexes), elems(int)
 //@ loop 0 invariant[own] fresh(iMap) && fresh(nillResps) && (base(batchRequest) == 0 || fresh(batchRequest)) && iMap != nil && nillResps != nil
 //@ loop 0 invariant[calls] queryer.QueryCalls == old(queryer.QueryCalls)
-//@ loop 0 invariant[wf] wfIMap(iMap) && len(batchRequest) == len(iMap)
-//@ loop 0 invariant[targets] forallT(k, string, has(iMap, k) ==> 0 <= iMap[k].targetIndex && iMap[k].targetIndex < len(batchRequest))
-//@ loop 0 invariant[inj] forallT(k1, string, forallT(k2, string, has(iMap, k1) && has(iMap, k2) && k1 != k2 ==> iMap[k1].targetIndex != iMap[k2].targetIndex))
-//@ loop 0 invariant[members] forallT(k, string, has(iMap, k) ==> forall(p, 0, len(iMap[k].indexes), 0 <= iMap[k].indexes[p] && iMap[k].indexes[p] < it))
-//@ loop 0 invariant[nills] forallT(j, int, has(nillResps, j) ==> 0 <= j && j < it)
+//@ loop 0 invariant[wf] wfIMap(iMap) && len(batchRequest) == len(iMap) @using wf, card
+//@ loop 0 invariant[targets] forallT(k, string, has(iMap, k) ==> 0 <= iMap[k].targetIndex && iMap[k].targetIndex < len(batchRequest)) @using targets, wf, card
+//@ loop 0 invariant[inj] forallT(k1, string, forallT(k2, string, has(iMap, k1) && has(iMap, k2) && k1 != k2 ==> iMap[k1].targetIndex != iMap[k2].targetIndex)) @using inj, targets, one-new, wf, card
+//@ loop 0 invariant[members] forallT(k, string, has(iMap, k) ==> forall(p, 0, len(iMap[k].indexes), 0 <= iMap[k].indexes[p] && iMap[k].indexes[p] < it)) @using members, wf
+//@ loop 0 invariant[nills] forallT(j, int, has(nillResps, j) ==> 0 <= j && j < it) @using nills
 //@ loop 0 invariant[covered] forall(j, 0, it, has(nillResps, j) || existsT(k, string, has(iMap, k) && exists(p, 0, len(iMap[k].indexes), iMap[k].indexes[p] == j))) @using covered, dom, kept, own
 //@ loop 1 invariant[own] fresh(qResps) && len(qResps) == len(ers)
 //@ loop 1 invariant[mono] forall(j, 0, len(ers), qResps[j] == nil || filled(qResps, ers, j))
